@@ -1,7 +1,7 @@
 ------------------------------ MODULE MC_Format ------------------------------
 EXTENDS ISFormat, Json, IOUtils, SequencesExt
 CONSTANTS Mode
-Shapes == {"short", "under", "at", "over", "nested", "multiline-str", "trailing-comma"}
+Shapes == {"short", "under", "at", "over", "nested", "multiline-str", "trailing-comma", "collapse"}
 Cases == [clean : BOOLEAN, fmtcmd : BOOLEAN, opts : OptIds, cwd : {"root", "sub", "outside"}, shape : Shapes,
           cats : {"create", "fix", "create-fix"}]
 VARIABLES c, step
